@@ -77,6 +77,9 @@ def pipe_run(s, chunk, mode):
         shutil.rmtree(rd, ignore_errors=True)
 
 
+PLAIN = {}
+
+
 def main():
     cr = CheckRun("C12", "fault_enumeration", default_budget=(420, 2400))
     with build.Scratch("C12") as sd:
@@ -101,6 +104,17 @@ def main():
             b1 = s.run(plan="", want_log=True)
             b2 = s.run(plan="", want_log=True)
             if b1["rc"] != 0 or b1["crashed"]:
+                # no deviation was injected: every call completed in full. If the plain build (no controller, no sanitizer) succeeds on the same
+                # input, the result depends on ambient state the controller build differs in (a stale errno, uninitialised memory ...)
+                if PLAIN.get("tools") is None:
+                    PLAIN["tools"] = build.build_tools(build.variant("plain"), os.path.join(sd, "plain"), tools=["gensquashfs", "tar2sqfs", "sqfs2tar", "rdsquashfs"])
+                pb = s.run(plan="", tools=PLAIN["tools"])
+                if pb["rc"] == 0 and not pb["crashed"]:
+                    cr.violation("C12|undisturbed-run-differs-between-builds|%s" % s.tool,
+                                 "scenario %s: with every call completing in full the tool fails under the environment controller (rc=%d: %s) but succeeds as a plain build" % (
+                                     s.name, b1["rc"], b1["err"].decode("latin1")[-300:].strip()),
+                                 files={"case.json": json.dumps(dict(scenario=s.name, plan="", note="baseline differs between builds"))})
+                    continue
                 raise RuntimeError("undisturbed run of scenario %s fails rc=%d %s" % (s.name, b1["rc"], b1["err"].decode("latin1")[-600:]))
             l1 = [l[:5] for l in b1["log"] if l[0] in XFER]
             l2 = [l[:5] for l in b2["log"] if l[0] in XFER]
